@@ -75,6 +75,13 @@ def jinja_source(tmpl, world):
             out.append('{%% import "%s" as imp%d %%}{{ imp%d }}' % (subst(arg, world), k, k))
         elif tag == "p":
             out.append('{{ python["%s"] }}' % arg)
+        elif tag == "j":
+            # vinegar's serialisation extension: the imported file is rendered (without context) and parsed as JSON
+            out.append('{%% import_json "%s" as dat%d %%}{{ dat%d }}' % (subst(arg, world), k, k))
+        elif tag == "y":
+            out.append('{%% import_yaml "%s" as dat%d %%}{{ dat%d }}' % (subst(arg, world), k, k))
+        elif tag == "q":
+            out.append(json.dumps(arg))     # a data file: one JSON string (for the model: the text itself)
         else:
             raise ValueError(tag)
     return "".join(out)
@@ -123,7 +130,10 @@ def model_cfg(cfg, world):
 
 
 def subst_tmpl(tmpl, world):
-    return [[tag, subst(arg, world) if tag in ("i", "m") else arg] for tag, arg in tmpl]
+    """a template as the MODEL sees it: `import_json` of a data file is an import whose value is the file's text (the
+    JSON quoting the adapter writes and the parsing `import_json` does cancel: json.loads(json.dumps(t)) == t)"""
+    m = {"j": "m", "y": "m", "q": "t"}
+    return [[m.get(tag, tag), subst(arg, world) if tag in ("i", "m", "j", "y") else arg] for tag, arg in tmpl]
 
 
 def history_request(case, obs):
@@ -154,7 +164,7 @@ DIRS = ["", "sub/", "sub/deep/", "other/"]
 LEVEL_FILES = {
     0: ["a.j2", "sub/b.j2", "sub/deep/c.j2"],
     1: ["inc1.j2", "sub/inc1.j2", "lib1.j2", "sub/lib1.j2", "other/inc1.j2", "sub/deep/lib1.j2"],
-    2: ["leaf.j2", "sub/leaf.j2", "sub/deep/leaf.j2", "other/leaf.j2", "leaf2.j2"],
+    2: ["leaf.j2", "sub/leaf.j2", "sub/deep/leaf.j2", "other/leaf.j2", "leaf2.j2", "data.json", "sub/data.json", "other/data.yaml"],
 }
 VARS = ["x", "y", "z"]
 
@@ -213,6 +223,9 @@ def gen_pykey(rng):
 
 def gen_tmpl(rng, cfg, level, path, version, flat_imports, via_import=False, pools=None):
     rel = effective(cfg)["relative"]
+    if path.endswith((".json", ".yaml")):
+        # a data file: one JSON string (which is YAML as well)
+        return [["q", gen_text(rng, "<%s#%d>" % (path.rsplit(".", 1)[0], version))]]
     nodes = [["t", gen_text(rng, "<%s#%d>" % (path.replace(".j2", ""), version))]]
     for _ in range(rng.randrange(0, 4)):
         r = rng.random()
@@ -221,6 +234,10 @@ def gen_tmpl(rng, cfg, level, path, version, flat_imports, via_import=False, poo
             target = rng.choice(pool if rng.random() < 0.93 else LEVEL_FILES[level + 1])
             is_lib = "lib" in target
             tag = "m" if (is_lib and rng.random() < 0.85) or (not is_lib and rng.random() < 0.1) else "i"
+            if target.endswith(".json"):
+                tag = "j"
+            elif target.endswith(".yaml"):
+                tag = "y"
             nodes.append([tag, gen_ref_name(rng, rel, path, target, cfg.get("root"))])
         elif r < 0.75:
             nodes.append(["v", rng.choice(VARS)])
@@ -545,7 +562,7 @@ def shrink_history(case):
     used = {op[1].rsplit("/", 1)[-1] for op in ops if op[0] == "render"}
     for op in ops:
         if op[0] == "write":
-            used |= {arg.rsplit("/", 1)[-1] for tag, arg in op[2] if tag in ("i", "m")}
+            used |= {arg.rsplit("/", 1)[-1] for tag, arg in op[2] if tag in ("i", "m", "j", "y")}
     cand = [op for op in ops if op[0] == "render" or op[1].rsplit("/", 1)[-1] in used]
     if len(cand) < n:
         yield mk(o=cand)
